@@ -6,7 +6,8 @@ from .. import deltatree as DT
 
 
 def module(rng, i):
-    g = GP.Gen(random.Random(rng.getrandbits(64)), max_funcs=4)
+    # mostly small programs (the specification side of the model is cubic in the number of nodes)
+    g = GP.Gen(random.Random(rng.getrandbits(64)), level=1 if i % 8 else 2, max_funcs=rng.choice([0, 1, 2, 3]))
     p = g.program()
     lay = GP.Layout(random.Random(i), plain=rng.random() < 0.5)
     pieces = []
@@ -23,7 +24,11 @@ def module(rng, i):
         if k < 0.4: extra.append(("const", "const K%d: %s = %s;\n" % (j, "i32", rng.randint(-50, 50))))
         elif k < 0.7: extra.append(("struct", "struct S%d\n{\n\tx: i32,\n\ty: [4]u8,\n}\n" % j))
         elif k < 0.85: extra.append(("word", "word64 W%d\n{\n\ta: u32,\n\tb: u16,\n}\n" % j))
+        elif k < 0.92: extra.append(("opaque", "struct Opaque%d;\n" % j))      # a structure without body (opaque)
         else: extra.append(("import", 'import "other%d.pn";\n' % j))
+    if rng.random() < 0.3: extra.append(("opaque", "struct Handle;\n"))
+    if rng.random() < 0.2: extra.append(("fnhead", "fn declared_only(a: i32) -> i32;\n"))
+    if rng.random() < 0.2: extra.append(("struct", "struct Empty\n{\n}\n"))
     for name, params, ret, body, result, _ in p["funcs"]:
         text = "fn %s(%s)%s\n{\n" % (name, ", ".join("%s: %s" % (x, GP.src_ty(t)) for x, t in params), " -> " + GP.src_ty(ret) if ret else "")
         for s in body: text += GP.src_stmt(s, lay, 1)
